@@ -282,6 +282,18 @@ def to_value(x):
     raise Unmodelled("value " + type(x).__name__)
 
 
+HELPERS_SRC = '''
+def h_id(a):
+    return a
+def h_inc(a):
+    return a + 1
+def h_sub(a, b=5):
+    return a - b
+def h_d3(x, y=2, z=7):
+    return x * 100 + (y * 10 + z)
+'''
+
+
 def base_env(ds):
     env = {
         "Select": Select, "Where": Where, "SelectMany": SelectMany, "First": First,
@@ -292,8 +304,10 @@ def base_env(ds):
         "ResultPandasDF": _result("ResultPandasDF"),
         "EventDataset": lambda: ds,
         "ds": ds,
+        "CUT": 30, "SCALE": 2,
         "__builtins__": {},
     }
+    exec(HELPERS_SRC, env)
     return env
 
 
